@@ -686,6 +686,10 @@ syncs:
 '''
 
 SPEC_HANDMADE = [
+    # several YAML documents: whatever is done with the later ones, none of them may bring the process down
+    b'syncs: []\n---\n' + b'- ' * 200000 + b'x\n', b'syncs: []\n---\n' + b'? ' * 200000 + b'x\n', b'syncs: []\n---\nok: 1\n---\n' + b'- ' * 150000 + b'x\n',
+    b'syncs:\n  - src: s\n    dest: d2\n---\n' + b'- ' * 200000 + b'x\n', b'- ' * 200000 + b'x\n---\nsyncs: []\n', b'syncs: []\n---\n' + b'a:\n' + b''.join(b' ' * i + b'k:\n' for i in range(1, 3000)),
+    b'syncs:\n  - src: s\n    dest: d2\n---\nsyncs:\n  - src: s2\n    dest: d3\n', b'syncs:\n  - src: s\n    dest: d2\n---\nfree-form notes, not a mapping\n', b'---\n---\nsyncs: []\n',
     b'', b'\n', b'---\n', b'...\n', b'syncs:\n', b'syncs: []\n', b'syncs: {}\n', b'syncs: 5\n', b'syncs: ~\n', b'[]\n', b'{}\n', b'5\n', b'"str"\n', b'~\n',
     b'syncs: [' * 1, b'syncs: ' + b'[' * 5000, b'syncs: ' + b'[' * 3000 + b']' * 3000, b'syncs: ' + b'{a: ' * 3000, b'a: ' * 3000 + b'b', b'- ' * 4000 + b'x',
     b'syncs:\n  - src: s\n    dest: d2\n    src: s\n', b'syncs:\n  - src: s\n', b'syncs:\n  - dest: d2\n', b'syncs:\n  - src: ""\n    dest: d2\n',
